@@ -12,10 +12,7 @@ U32 = numpy.uint32
 
 META = {
     "level": "exploration",
-    "rule": ("1-4 one-axis index dimensions, N in {0,1,3,8,20,200}, extents 1-5, any common (most frequent, rare, with "
-             "zero rows, outside the data), uncommon categories that never co-occur; the callback log of interactions() "
-             "and of walk() with 1-3 callbacks is compared as a multiset with {(c, rows(c))}. Non-trivial: >=2 dimensions "
-             "and >=1 delivered combination mixing a category with a marginal marker; distinct by content hash"),
+    "rule": ("1-4 one-axis index dimensions, N in {0,1,3,8,20,200}, extents 1-5, any common (most frequent, rare, with zero rows, outside the data), uncommon categories that never co-occur; the callback log of interactions() and of walk() with 1-3 callbacks is compared as a multiset with {(c, rows(c))} - every callback's log; strided row-id arrays, stored-but-empty categories, exactly 256/65536 uncommon categories, nested dimensions, one object as two dimensions, re-walk after in-place edits, a callback that walks the same cube itself, parallel flag set before walking. Non-trivial: >=2 dimensions and >=1 delivered combination mixing a category with a marginal marker; distinct by content hash"),
     "require": {t: ["class:ndims=1", "class:ndims=4", "class:n=0", "class:common_without_rows", "class:empty_intersection",
                     "events:mixed", "events:all_uncommon", "walk:callbacks=3", "via:interactions",
                     "walk:after_in_place_edit", "class:strided_rowid_arrays", "walk:repeated",
